@@ -101,6 +101,8 @@ def issubdtype(dt, k):
 def _dt(t):
     if isinstance(t, DType):
         return t
+    if getattr(t, "_symx_dtype", None) is not None:   # per-module shadows of the builtins float / int / str / bool
+        t = t._symx_dtype
     if t is bool or t is _np.bool_:
         return bool_
     if t is _np.int8:
